@@ -115,7 +115,55 @@ def search : Handler := fun j => do
                           ("valid", jBool (valid tg c))])),
                 ("best", b), ("min_score", minScore)])
 
+/-- op `c07.session`: one `SliceFinder(cons, size_dict, targets…)` object and a history of
+    `search(**over)` calls on it (`calls = [{over, picks}]`, `picks` = the oracle answers observed
+    on the real run, one list per trial). Uses `Slicer.callCache / callResult` — the definitions
+    `C07.session_sound` is about. Reported per call: the trial outcomes, the cache afterwards with
+    validity under the targets in force for that call, and what `search` returns. -/
+def session : Handler := fun j => do
+  let sd ← pairList (← field j "size_dict")
+  let cons ← (← arrOf (← field j "cons")).mapM conOfJson
+  let output ← natList (← field j "output")
+  let allowOuter ← natOf (← field j "allow_outer")
+  let tg0 ← targetsOf (← field j "targets")
+  let callsJ ← arrOf (← field j "calls")
+  let calls ← callsJ.mapM fun cj => do
+    let over ← targetsOf (← field cj "over")
+    let picks ← natListList (← field cj "picks")
+    pure ({ over := over, trials := picks } : Call)
+  match Costs.init cons sd with
+  | none => pure (jObj [("error", jStr "init")])
+  | some c0 =>
+    let forb := forbiddenOf output sd allowOuter
+    let rec trialsOf (tg : Targets) (ps : List (List Nat)) (cache : Cache) (acc : List Json) : List Json :=
+      match ps with
+      | [] => acc
+      | p :: rest =>
+        match trial forb tg p cache with
+        | (cache', .ok k c) => trialsOf tg rest cache' (acc ++ [jRes (.ok k c)])
+        | (_, r) => acc ++ [jRes r]
+    let rec go (cs : List Call) (cache : Cache) (acc : List Json) : List Json :=
+      match cs with
+      | [] => acc
+      | cl :: rest =>
+        let tg := cl.over.orElse tg0
+        let cache' := callCache forb tg0 cl cache
+        let aborted := (searchLoop forb tg cl.trials cache).2.isSome
+        let b := match callResult forb tg0 cl cache with
+          | some (k, c) => jObj [("status", jStr "ok"), ("key", jNats k), ("cost", jCosts c false)]
+          | none => jObj [("status", jStr (if aborted then "aborted" else "ValueError"))]
+        let minScore := match best tg cache' with
+          | none => Json.null
+          | some (_, c) => let s := scorer tg c; Json.arr #[jInt s.1, jInt s.2.1, jInt s.2.2]
+        let out := jObj [("trials", jArr (trialsOf tg cl.trials cache [])),
+                         ("cache", jArr (cache'.map fun (k, c) =>
+                            jObj [("key", jNats k), ("cost", jCosts c false),
+                                  ("valid", jBool (valid tg c))])),
+                         ("best", b), ("min_score", minScore)]
+        go rest cache' (acc ++ [out])
+    pure (jObj [("forbidden", jNats (sortNats forb)), ("calls", jArr (go calls [([], c0)] []))])
+
 def handlers : List (String × Handler) :=
-  [("c07.remove", remove), ("c07.tree", tree), ("c07.search", search)]
+  [("c07.remove", remove), ("c07.tree", tree), ("c07.search", search), ("c07.session", session)]
 
 end Cotengra.Driver.C07
